@@ -10,3 +10,4 @@ from . import version_cmp  # noqa
 from . import config_init  # noqa
 from . import diff  # noqa
 from . import rewrite_lines  # noqa
+from . import parts  # noqa
